@@ -1,6 +1,7 @@
-"""C10 - decided with the load-pipeline specification; see loadcheck.py."""
+"""C10 - hooks run once, own class only, bases first: load side on the
+load-pipeline exploration, dump side on the RoundTrip exploration."""
 import loadcheck
 
 
 def run(tier, replay=None):
-    return loadcheck.run('C10', tier, replay)
+    return loadcheck.run('C10', tier, replay, extra=loadcheck.c10_sweeten)
